@@ -326,6 +326,16 @@ theorem C35_resp_denominator_error (w2 gdt θ : ℝ) (hθ : |θ| ≤ 1) (hg : 0 
 
 end error
 
+/-! ### one handle for the clauses stated over ℝ / ℂ
+(the axiom audit walks the whole dependency closure per registered name; the real-analysis closure is shared) -/
+theorem C35_analytic_clauses :
+    (type_of% @C35_chi_roundtrip_complex) ∧ (type_of% @C35_lorentz) ∧ (type_of% @C35_drude) ∧
+    (type_of% @C35_ccpr) ∧ (type_of% @C35_critical_point) ∧ (type_of% @C35_jury_roots_complex) ∧
+    (type_of% @C35_no_root_outside) ∧ (type_of% @C35_resp_steady_state) ∧
+    (type_of% @C35_resp_denominator_error) :=
+  ⟨@C35_chi_roundtrip_complex, @C35_lorentz, @C35_drude, @C35_ccpr, @C35_critical_point,
+   @C35_jury_roots_complex, @C35_no_root_outside, @C35_resp_steady_state, @C35_resp_denominator_error⟩
+
 /-! ### non-vacuity: the hypotheses are met by concrete non-trivial inputs -/
 section nonvacuity
 
